@@ -319,6 +319,7 @@ class FakeThreading:
         self.sched = sched
         self.made = []
         self.uncontrolled = set()
+        self.used = set()
 
     def _create(self, cls):
         s = self.sched
@@ -349,11 +350,13 @@ class FakeThreading:
             raise AttributeError(name)
         if name not in PASS_THROUGH:
             self.uncontrolled.add(name)     # something the scheduler cannot control (Thread, Timer, Barrier, ...)
+        else:
+            self.used.add(name)             # harmless for the scheduler, but e.g. `local` / `get_ident` mean per-thread state
         return getattr(threading, name)
 
 
 class Worker:
-    __slots__ = ("tid", "go", "pending", "thread", "phase", "left")
+    __slots__ = ("tid", "go", "pending", "thread", "phase", "left", "local_state")
 
     def __init__(self, tid):
         self.tid = tid
@@ -362,6 +365,7 @@ class Worker:
         self.pending = ("start", None)
         self.phase = "start"
         self.left = 0
+        self.local_state = None
 
 
 class Scheduler:
@@ -374,6 +378,7 @@ class Scheduler:
         self.abort = False
         self.broken = None
         self.steps = 0
+        self.park_hook = None
 
     # ---- worker side
     def park(self, op, lock):
@@ -383,6 +388,8 @@ class Scheduler:
         if self.abort:                      # unwinding (e.g. the __exit__ of a `with lock:` while the run is abandoned)
             raise SchedAbort()
         w.pending = (op, lock)
+        if self.park_hook is not None:      # observation that only the thread itself can make (thread-local state)
+            w.local_state = self.park_hook(w)
         self.wake.release()
         if not w.go.acquire(timeout=TIMEOUT * 4) or self.abort:
             raise SchedAbort()
